@@ -79,7 +79,7 @@ def modules():
             load.tsdate_module("hypergeo"))
 
 
-def patched_ep(stub_moments=(), calls=None, real_np_log=False):
+def patched_ep(stub_moments=(), calls=None, real_np_log=False, more=()):
     """Context manager patching variational+approx; `stub_moments`: names replaced by stubs."""
     import contextlib
     from symx import load
@@ -90,7 +90,8 @@ def patched_ep(stub_moments=(), calls=None, real_np_log=False):
         extra = {approx: {"log": uf_log, "exp": uf_exp, "lgamma": uf_lgamma}}
         for nm in stub_moments:
             extra[approx][nm] = moment_stub(nm, MOMENT_ARITY[nm], calls)
-        with load.patched(var, approx, extra=extra) as npx:
+        mods = [load.tsdate_module(m) for m in more]
+        with load.patched(var, approx, *mods, extra=extra) as npx:
             approx.np = NPLog(npx)
             yield var, approx, npx
     return cm()
